@@ -106,9 +106,9 @@ def rand_tree(rng, depth=3):
 
 
 DICT_OPS = ['setitem', 'setitem', 'delitem', 'setattr', 'delattr', 'update', 'update_kw', 'update_only_kw', 'setdefault', 'pop', 'pop_default', 'clear',
-            'set_child', 'remove_child', 'rename_child']
+            'set_child', 'remove_child', 'rename_child', 'shallow_copy', 'clear_children', 'setdefault_novalue']
 LIST_OPS = ['setitem', 'setitem', 'delitem', 'append', 'append', 'insert', 'insert', 'extend', 'remove', 'pop', 'pop_index', 'clear',
-            'set_child', 'remove_child', 'rename_child', 'extend_self']
+            'set_child', 'remove_child', 'rename_child', 'extend_self', 'shallow_copy', 'clear_children']
 
 
 def gen_case(rng, tier):
@@ -178,7 +178,7 @@ class Resync(Exception):
 def apply_ref(kind, name, ref, key, val, vals, op):
     """perform the operation on the reference builtin; returns the reference return value (or raises)"""
     if kind == 'dict':
-        if key in RESERVED and (name in ('setitem', 'setattr', 'set_child') or name == 'setdefault' and key not in ref):
+        if key in RESERVED and (name in ('setitem', 'setattr', 'set_child') or name in ('setdefault', 'setdefault_novalue') and key not in ref):
             raise ValueError('reserved name')
         if name in ('setitem', 'setattr', 'set_child'):
             ref[key] = val
@@ -199,6 +199,11 @@ def apply_ref(kind, name, ref, key, val, vals, op):
             return None
         if name == 'setdefault':
             return ref.setdefault(key, val)
+        if name == 'setdefault_novalue':
+            return ref.setdefault(key)
+        if name == 'clear_children':
+            ref.clear()
+            return None
         if name == 'pop':
             return ref.pop(key)
         if name == 'pop_default':
@@ -208,7 +213,7 @@ def apply_ref(kind, name, ref, key, val, vals, op):
             return None
         if name == 'rename_child':
             new = RENAME_TO[int(op['r2'] * len(RENAME_TO))]
-            if key not in ref or new in ref:
+            if key not in ref or new in ref or new in RESERVED:
                 raise ValueError('rename')
             ref[new] = ref.pop(key)
             return None
@@ -241,7 +246,7 @@ def apply_ref(kind, name, ref, key, val, vals, op):
             return ref.pop()
         if name == 'pop_index':
             return ref.pop(key)
-        if name == 'clear':
+        if name in ('clear', 'clear_children'):
             ref.clear()
             return None
         if name == 'set_child':
@@ -284,6 +289,10 @@ def apply_real(kind, name, node, key, val, vals, op):
             node.update(a=val, c=vals)
         elif name == 'setdefault':
             return node.setdefault(key, val)
+        elif name == 'setdefault_novalue':
+            return node.setdefault(key)
+        elif name == 'clear_children':
+            node.ayns.clear()
         elif name == 'pop':
             return node.pop(key)
         elif name == 'pop_default':
@@ -316,6 +325,8 @@ def apply_real(kind, name, node, key, val, vals, op):
             return node.pop(key)
         elif name == 'clear':
             node.clear()
+        elif name == 'clear_children':
+            node.ayns.clear()
         elif name == 'set_child':
             node.ayns.set_child(key, val)
         elif name == 'remove_child':
@@ -354,7 +365,7 @@ def _bounded(fn, seconds):
 
 
 MIRRORS_BUILTIN = {'setitem', 'delitem', 'append', 'insert', 'extend', 'extend_self', 'remove', 'pop', 'pop_index', 'pop_default', 'clear', 'update',
-                   'update_kw', 'update_only_kw', 'setdefault'}
+                   'update_kw', 'update_only_kw', 'setdefault', 'setdefault_novalue'}
 
 
 def run(case):
@@ -376,6 +387,7 @@ def run(case):
     did_list = did_dict = False
     resync = 0
     history = []
+    sides = []
     for step, op in enumerate(case['ops']):
         if vio:
             break
@@ -392,7 +404,7 @@ def run(case):
             break
         if kind == 'dict':
             key = pick_key(op, rcont)
-            if name in ('setitem', 'set_child', 'setdefault') and op['kmode'] == 'new' and op['r2'] < 0.12:
+            if name in ('setitem', 'set_child', 'setdefault', 'setdefault_novalue') and op['kmode'] == 'new' and op['r2'] < 0.12:
                 key = RESERVED[int(op['r'] * len(RESERVED))]
             if key in RESERVED and name in ('update', 'update_kw'):
                 name = 'setitem'
@@ -402,6 +414,15 @@ def run(case):
             key = pick_index(op, len(rcont))
             if name == 'extend_self' and any(isinstance(x, (dict, list)) for x in rcont):
                 name = 'extend'          # (with nested containers both positions would hold the same objects afterwards, as in python: not what is tested here)
+        if name == 'shallow_copy':
+            # copy.copy(container): a container of its own over the same child nodes; whatever happens to the original afterwards,
+            # the copy's two views keep agreeing with each other
+            try:
+                sides.append((list(path), kind, copy.copy(node)))
+                feats.append(f'{kind}.shallow_copy')
+            except Exception as e:
+                vio.append({'mech': 'shallow-copy-raises', 'what': f'step {step}: copy.copy of the container at {list(path)!r} raises {type(e).__name__}: {e}; history={history!r}; start={case["tree"]!r}'})
+            continue
         val = copy.deepcopy(op['value'])
         if kind == 'list' and name == 'remove' and rcont and op['r2'] < 0.7:
             val = copy.deepcopy(rcont[int(op['r'] * len(rcont))])
@@ -441,6 +462,13 @@ def run(case):
         if probs:
             vio.append({'mech': 'views-disagree:' + f'{kind}.{name}', 'what': f'{where}: {probs[0]}; history={history!r}; start={case["tree"]!r}'})
             break
+        for spath, skind, side in sides:
+            probs = monitors.treesan(side)
+            if probs:
+                vio.append({'mech': 'views-disagree-in-shallow-copy', 'what': f'{where}: the shallow copy taken earlier of the container at {spath!r}: {probs[0]}; history={history!r}; start={case["tree"]!r}'})
+                break
+        if vio:
+            break
         if exp[0] == 'refuse':
             if got[0] == 'ok':
                 feats.append('refused_value_accepted')          # (a library that can hold such values: nothing to compare the rest of the history with)
@@ -467,7 +495,7 @@ def run(case):
             if got[0] == 'err':
                 vio.append({'mech': 'unexpected-error:' + f'{kind}.{name}', 'what': f'{where}: valid for the builtin but the node raises {type(got[1]).__name__}: {got[1]}; history={history!r}; start={case["tree"]!r}'})
                 break
-            if name in ('pop', 'pop_index', 'pop_default', 'setdefault', 'remove_child'):
+            if name in ('pop', 'pop_index', 'pop_default', 'setdefault', 'setdefault_novalue', 'remove_child'):
                 g = got[1]
                 g = native(g) if isinstance(g, ConfigNode) else g
                 if util.typed(g) != util.typed(exp[1]):
